@@ -11,6 +11,7 @@ import Driver.TreeP
 import Driver.ResP
 import Driver.WidthP
 import Driver.LenP
+import Driver.MixP
 import Driver.RefP
 import Driver.InlP
 import Driver.CcP
@@ -44,6 +45,7 @@ def handle (line : String) : String :=
   | "tree" :: args => Driver.TreeP.handle args
   | "res" :: args => Driver.ResP.handle args
   | "len" :: args => Driver.LenP.handle args
+  | "mixed" :: args => Driver.MixP.handle args
   | "width" :: args => Driver.WidthP.handle args
   | "widthspec" :: args => Driver.WidthP.handleSpec args
   | "refcmp" :: args => Driver.RefP.cmpHandle args
